@@ -127,6 +127,14 @@ def seed_target(tdir):
     """Each property has its own cargo target dir (concurrent checks must not share one);
     a new one is seeded from the dir pre-built by setup so dependencies are not rebuilt."""
     base = os.path.join(WORK, "target-base")
+    # artefacts of harnesses that no longer exist (or of other tiers) pile up: start over above 6 GB
+    if os.path.isdir(tdir):
+        try:
+            kb = int(subprocess.run(["du", "-sk", tdir], capture_output=True, text=True).stdout.split()[0])
+        except Exception:
+            kb = 0
+        if kb > 6 * 1024 * 1024:
+            shutil.rmtree(tdir, ignore_errors=True)
     if not os.path.exists(tdir) and os.path.isdir(base):
         subprocess.call(["cp", "-r", base, tdir])
 
